@@ -479,7 +479,10 @@ def check(ctx):
     # Round 7: "packs / unpacks according to its own declaration" while several processes and classes
     # define same-named classes: the module a class installs is shared through sys.modules, so the
     # generated functions depend on nothing but their own text and arguments (C15-E)
-    from .c15 import check_templates_closed, check_module_namespace
+    from .c15 import check_templates_closed, check_module_namespace, check_hashed_parts_are_written, check_hash_covers_generated_code
     check_templates_closed(ctx, ctx.repo)
     check_module_namespace(ctx, model)
+    # Round 8: ... and the cookie tells apart every two files the generator can write (C15-H)
+    check_hash_covers_generated_code(ctx)
+    check_hashed_parts_are_written(ctx, model)
     ctx.trust(*ASSUMPTIONS)
